@@ -57,6 +57,23 @@ fn pass_is_one_sort() {
     std::mem::forget(rel);
     std::mem::forget(d);
 }
+/// C06 — a pass consumes the notified entries also when no asset is affected (otherwise a stale notification is replayed
+/// later and rewrites an asset although nothing changed since it was loaded)
+fn pass_consumes_events_without_assets() {
+    let mut d = data();
+    unsafe { g::SORT_EMPTY = true };
+    d.to_reload.insert(file("a"));
+    let map = crate::cache::amv_h::new_map();
+    let rel = make_reloader();
+    d.update_if_local(&map, &rel);
+    unsafe {
+        assert!(g::SORT_CALLS == 1 && g::RELOAD_CALLS == 0, "nothing to reload when the sort lists no asset");
+    }
+    assert!(d.to_reload.len() == 0, "C06 notified entries are consumed by the pass, also when no asset is affected: an asset is rewritten only if something it recorded was notified since");
+    std::mem::forget(map);
+    std::mem::forget(rel);
+    std::mem::forget(d);
+}
 /// C06 — events for entries absent from the graph are dropped; known ones are queued once; Local mode does not reload on events
 fn events_are_filtered() {
     let mut d = data();
@@ -95,6 +112,7 @@ fn mode_dispatch() {
 }
 instances! {
     c06_k5_pass_is_one_sort => pass_is_one_sort();
+    c06_k5_pass_consumes_events_without_assets => pass_consumes_events_without_assets();
     c06_k5_events_are_filtered => events_are_filtered();
     c05_k9_mode_dispatch => mode_dispatch();
 }
